@@ -612,6 +612,25 @@ fn put_main(env: &mut VEnv, args: Vec<Field>) -> BuiltinFuture<'_> {
     })
 }
 
+/// `emitraw HEX...`: writes the bytes given in hexadecimal (not necessarily valid UTF-8).
+fn emitraw_main(env: &mut VEnv, args: Vec<Field>) -> BuiltinFuture<'_> {
+    Box::pin(async move {
+        let mut data = vec![];
+        for a in &args {
+            let h = a.value.as_bytes();
+            for pair in h.chunks(2) {
+                if let Ok(b) = u8::from_str_radix(std::str::from_utf8(pair).unwrap_or("0"), 16) {
+                    data.push(b);
+                }
+            }
+        }
+        match env.system.write_all(Fd::STDOUT, &data).await {
+            Ok(()) => ExitStatus::SUCCESS.into(),
+            Err(_) => ExitStatus::FAILURE.into(),
+        }
+    })
+}
+
 fn cap_arg(args: &[Field]) -> usize {
     args.first().and_then(|f| f.value.parse::<usize>().ok()).filter(|c| *c > 0).unwrap_or(1024)
 }
@@ -660,6 +679,7 @@ fn sink_main(env: &mut VEnv, args: Vec<Field>) -> BuiltinFuture<'_> {
 fn install(env: &mut VEnv) {
     env.builtins.insert("emit", Builtin::new(Type::Mandatory, emit_main));
     env.builtins.insert("put", Builtin::new(Type::Mandatory, put_main));
+    env.builtins.insert("emitraw", Builtin::new(Type::Mandatory, emitraw_main));
     env.builtins.insert("relay", Builtin::new(Type::Mandatory, relay_main));
     env.builtins.insert("sink", Builtin::new(Type::Mandatory, sink_main));
 }
@@ -815,6 +835,11 @@ fn render(e: &DExp, route: &Route) -> String {
     }
 }
 
+fn r_cap(i: u64) -> &'static usize {
+    const CAPS: [usize; 4] = [1024, 100, 513, 4096];
+    &CAPS[(i % 4) as usize]
+}
+
 fn policy_of(kind: usize, seed: u64) -> (Policy, String) {
     match kind {
         0 => (Policy::First, "first".into()),
@@ -830,6 +855,25 @@ fn stream_c_case(w: &mut CasesWriter, e: &DExp, route: &Route, pol_kind: usize, 
     stream_c_case_with(w, e, route, policy, pol_name);
 }
 
+/// Initial descriptor layouts of the shell (which low descriptors are free
+/// decides where `pipe` puts its ends and what PipeSet::move_to_stdin_stdout
+/// has to move out of the way).
+const PRELUDES: [&str; 9] = [
+    "",
+    "exec <&-",
+    "exec >&-",
+    "exec <&- >&-",
+    "exec 2>&-",
+    "exec <&- >&- 2>&-",
+    "exec 3<&0 4>&1 <&- >&-",
+    "exec 3>&2 2>&- <&-",
+    "exec 0>&2 1<&2",
+];
+
+thread_local! {
+    static PRELUDE: Cell<usize> = const { Cell::new(0) };
+}
+
 /// Returns the path of scheduling choices (for depth-first enumeration).
 fn stream_c_case_with(
     w: &mut CasesWriter,
@@ -838,7 +882,14 @@ fn stream_c_case_with(
     policy: Policy,
     pol_name: String,
 ) -> sched::Path {
-    let script = render(e, route);
+    let prelude = match route {
+        Route::Pipe(0, _) => "",
+        _ => PRELUDES[PRELUDE.with(|p| p.get())],
+    };
+    let script = if prelude.is_empty() { render(e, route) } else { format!("{prelude}\n{}", render(e, route)) };
+    if !prelude.is_empty() {
+        w.count(&format!("C.descriptors:{prelude}"));
+    }
     WATCHDOG.with(|wd| wd.tick(&script));
     SUNK.with(|s| s.borrow_mut().clear());
     let (o, info) = run_shell_sched(
@@ -967,6 +1018,56 @@ fn stream_d_case(w: &mut CasesWriter, text: &str) {
     w.count(&format!("D.trailing-newlines:{}", tr.min(3)));
     let key = if tr > 0 && text.trim_end_matches('\n').contains('\n') { Some(format!("D:{text}")) } else { None };
     w.push(&term, &json, &[], key);
+}
+
+// ---------------------------------------------------------------------------
+// Stream E: command substitution of raw bytes (not necessarily valid UTF-8)
+
+fn stream_e_case(w: &mut CasesWriter, bytes: &[u8]) {
+    let hex: String = bytes.iter().map(|b| format!("{b:02x}")).collect();
+    let script = format!("x=$(emitraw {hex}\n)\nargs \"$x\"");
+    WATCHDOG.with(|wd| wd.tick(&script));
+    let (o, _) = vsh::run_shell(
+        RunOpts { argv: vec!["-c".into(), script.clone()], ..Default::default() },
+        |env, _| install(env),
+    );
+    let a: Vec<&TraceItem> = o.trace.iter().filter(|t| t.kind == "args").collect();
+    let out = if a.len() == 1 && a[0].args.len() == 1 { a[0].args[0].clone() } else { "\u{1}unobserved".to_string() };
+    // what the standard library's lossy decoder makes of the bytes
+    let std_decoded = String::from_utf8_lossy(bytes).into_owned();
+    let term = format!("(CRaw {} {} {})", coq::bytes(bytes), coq::s(&std_decoded), coq::s(&out));
+    let json = format!(
+        "{{\"stream\":\"E\",\"bytes\":{},\"value\":{},\"status\":{}}}",
+        json_str(&hex),
+        json_str(&out),
+        o.status
+    );
+    let valid = std::str::from_utf8(bytes).is_ok();
+    w.count(if valid { "E.bytes:valid-utf8" } else { "E.bytes:invalid-utf8" });
+    let tr = bytes.iter().rev().take_while(|b| **b == b'\n').count();
+    w.count(&format!("E.trailing-newlines:{}", tr.min(3)));
+    let key = if !valid && tr > 0 { Some(format!("E:{hex}")) } else { None };
+    w.push(&term, &json, &[], key);
+}
+
+fn gen_raw(r: &mut Rng) -> Vec<u8> {
+    let alphabet: [u8; 22] = [
+        b'a', b'b', b'\n', b'\n', b' ', 0xFF, 0xFE, 0xC0, 0xC1, 0xC3, 0xA9, 0x80, 0xBF, 0xE0, 0xA0, 0xE8, 0xAA, 0x9E,
+        0xED, 0xF0, 0x9F, 0xF4,
+    ];
+    let n = r.below(14);
+    let mut v: Vec<u8> = (0..n).map(|_| *r.pick(&alphabet)).collect();
+    // something invalid near the end, then trailing newlines
+    if r.chance(1, 2) {
+        v.push(*r.pick(&[0xFFu8, 0xFE, 0xC0, 0xC3, 0xE8, 0xF0, 0x80]));
+        if r.chance(1, 2) {
+            v.push(*r.pick(&[0xAAu8, 0x9F, b'z', 0xFF]));
+        }
+    }
+    for _ in 0..r.below(4) {
+        v.push(b'\n');
+    }
+    v
 }
 
 fn gen_text(r: &mut Rng) -> String {
@@ -1180,6 +1281,29 @@ fn main() {
         }
     }
 
+    // pipelines of 2-6 commands under every initial descriptor layout
+    {
+        let sizes: Vec<usize> = if args.thorough() { vec![3, PIPE_BUF + 1, PIPE_SIZE + 1, 2 * PIPE_SIZE + 3] } else { vec![PIPE_SIZE + 1] };
+        let mut i = 0u64;
+        for pre in 0..PRELUDES.len() {
+            PRELUDE.with(|p| p.set(pre));
+            for stages in 1..=5usize {
+                for n in &sizes {
+                    let e = DExp::Gen(*n, 31 + i % 7, 1, 0);
+                    let pols: &[usize] = if args.thorough() { &[0, 1, 4] } else { &[4] };
+                    for pk in pols {
+                        stream_c_case(&mut w, &e, &Route::Pipe(stages, *r_cap(i)), *pk, i * 13 + 1);
+                    }
+                    i += 1;
+                }
+            }
+            let e = DExp::Gen(PIPE_SIZE + 1, 3, 2, 0);
+            stream_c_case(&mut w, &e, &Route::Var, 4, i);
+            stream_c_case(&mut w, &DExp::Gen(PIPE_BUF, 5, 1, 0), &Route::Here(1024), 4, i + 1);
+        }
+        PRELUDE.with(|p| p.set(0));
+    }
+
     let nc = args.scale(120, 1500);
     for k in 0..nc {
         let mut r = rng.fork(3_000_000 + k as u64);
@@ -1206,6 +1330,7 @@ fn main() {
             Route::Here(1) if e.eval().len() > 1500 => Route::Here(64),
             other => other,
         };
+        PRELUDE.with(|p| p.set(if r.chance(1, 3) { r.below(PRELUDES.len()) } else { 0 }));
         let nsched = args.scale(3, 5);
         for j in 0..nsched {
             let pk = match j {
@@ -1218,6 +1343,27 @@ fn main() {
         }
     }
 
+    for raw in [
+        &b"a\xff\n"[..],
+        &b"\xff\n\n"[..],
+        &b"a\xc0\xaf\n"[..],
+        &b"ab\xfe\xffcd\xc0\n\n\n"[..],
+        &b"\xe8\xaa\n"[..],
+        &b"\xf0\x9f\x98\n\n"[..],
+        &b"\xed\xa0\x80\n"[..],
+        &b"\n\xff"[..],
+        &b"\xc3\xa9\xe8\xaa\x9e\xf0\x9f\x98\x80\n"[..],
+    ] {
+        stream_e_case(&mut w, raw);
+    }
+    let ne = args.scale(120, 3000);
+    for k in 0..ne {
+        let mut r = rng.fork(8_000_000 + k as u64);
+        let raw = gen_raw(&mut r);
+        stream_e_case(&mut w, &raw);
+    }
+
+    PRELUDE.with(|p| p.set(0));
     let nd = args.scale(100, 2000);
     for k in 0..nd {
         let mut r = rng.fork(4_000_000 + k as u64);
